@@ -88,13 +88,13 @@ func EncodeString(v string, quote byte, alt *rand.Rand) string {
 				b.WriteRune(r)
 			}
 		default:
-			if alt != nil && alt.Intn(12) == 0 && r != 'n' && r != 'r' && r != 't' && r != '\n' && r != 0 {
-				// any other escaped character is taken literally
-				b.WriteByte('\\')
-			}
 			if alt != nil && alt.Intn(40) == 0 {
 				// backslash-newline continuation contributes nothing
 				b.WriteString("\\\n")
+			}
+			if alt != nil && alt.Intn(12) == 0 && r != 'n' && r != 'r' && r != 't' && r != '\n' && r != 0 {
+				// any other escaped character is taken literally
+				b.WriteByte('\\')
 			}
 			b.WriteRune(r)
 		}
